@@ -237,7 +237,9 @@ def simStep (H : Bytes → Str) (reps : Array SimRep) (line : JVal) : Array SimR
             let bytesOk := items.all (fun p => match p.2 with
               | .str hx => (hexDecode hx) = other.kv.read p.1
               | _ => false)
-            finish st ((if sameSet expectNew got then [] else S "meld wrote " ++ (JVal.arr (got.map jstr)).render ++ S " model expects " ++ (JVal.arr (expectNew.map jstr)).render)
+            -- `partial`: the receiver's storage failed some writes; what was written is a subset of what meld selects
+            let setOk := if res = S "partial" then got.all (expectNew.contains ·) else sameSet expectNew got
+            finish st ((if setOk then [] else S "meld wrote " ++ (JVal.arr (got.map jstr)).render ++ S " model expects " ++ (JVal.arr (expectNew.map jstr)).render)
                            ++ (if bytesOk then [] else S " meld bytes differ from the source"))
         else if prim = S "commit" then
           if !st.hasStaging then
